@@ -37,7 +37,10 @@ ASSUMPTIONS = [
     "halving_negative_counterexample, giant_steps_start1_counterexample show that these cannot be dropped.",
     "Loops inside callbacks supplied by the user and in C extensions (gmpy) are outside the model; MPMATH_NOGMPY=1.",
     "Dynamic part: a step budget (sys.settrace line events in mpmath frames, 1x then 10x) followed by an untraced re-run against the wall clock "
-    "(60 s quick, 1800 s thorough) decides 'does not return' (a call that comes back in the re-run is listed as slow); precisions <= 4000 bits, "
+    "(60 s quick, 1800 s thorough) decides 'does not return' (a call that comes back in the re-run is listed as slow; a call cut off after "
+    "fewer than 10*prec iterations of the open loop is listed as undecided: a geometrically convergent tolerance loop may need that many, so "
+    "slow iterations are not evidence of non-termination — e.g. polylog(2.5, exp(i*pi/3)) at 4000 bits needs ~1500 zeta evaluations and "
+    "more than 25 minutes); precisions <= 4000 bits, "
     "|arguments| <= 1e6; a wall-clock timeout is 'no result'.",
     "Adaptive part: 'does not return' = no result within 4 x max(5 s, 50 x median CPU time of the neighbouring placements around the same "
     "threshold) (two runs in fresh processes: 1x, then 4x) while at least 2 of those neighbours returned and a loop of an open class is on the stack at the cut-off; a call that is "
